@@ -1,12 +1,1459 @@
-//! C02 — monitor not built yet (stub so that the registry is complete).
+//! C02 — interval transfer functions are sound and produce well-formed intervals.
+//!
+//! Monitor shape: the real `IntervalDomain::{bin_op,un_op,cast,subpiece}` is executed on
+//! generated abstract inputs; the concretisation γ of inputs and result is computed by the
+//! harness from the serialised fields and every concrete image (computed by `pref`) of
+//! members of the inputs must be a member of the result. Every produced interval is
+//! checked for well-formedness.
+
+use crate::conv::*;
 use crate::core::*;
+use crate::pref::{self, V};
+use crate::prng::{mix, Rng};
+use cwe_checker_lib::abstract_domain::{
+    AbstractDomain, Interval, IntervalDomain, RegisterDomain, SpecializeByConditional,
+};
+use cwe_checker_lib::intermediate_representation::*;
+use serde_json::{json, Value};
 
 pub fn info() -> CheckInfo {
     CheckInfo {
         id: "C02",
-        rule: "(monitor not built yet)",
-        assumptions: &[],
-        run: |_cfg| Report::new(),
-        replay: |_cfg, _case| Report::new(),
+        rule: "IntervalDomain::{bin_op,un_op,cast,subpiece} executed next to the P-Code reference `pref`: gamma(x) = {start,start+stride,..,end} read from the serialised fields; every image of members must be in gamma(result) and every result must be well-formed (start<=end signed, end on stride, stride 0 iff singleton, width). 1-byte universe U1 (all well-formed (start,end,stride)): unary ops/casts/subpieces on all of U1 with all members (plain and with widening hints), binary ops on boundary-biased pairs of U1 with all members of both; widths 2/4/8 and mixed-width piece/shift: sampled intervals with sampled members; witness-shadowed chains of length <= 8. non-trivial = result not Top and at least one input not a singleton; distinct = hash of (operation, input intervals)",
+        assumptions: &[
+            "pref (harness/vmon/src/pref.rs) is a correct transcription of the P-Code reference manual",
+            "gamma is read from the serde form of IntervalDomain ({interval:{start,end,stride},widening_*}); widening hints and delay do not change gamma",
+            "domain guards (asserted by the code): equal operand widths except piece/shift; BOOL_* and BoolNegate only on 1-byte values within {0,1}; ZEXT/SEXT only to sizes >= source; piece result <= 16 bytes; shift amount operand <= 8 bytes wide; subpiece low+size <= width",
+            "inputs with widening hints are built through the public API (update_widening_*_bound) so only reachable states are fed; the delay is set through serde",
+            "division/remainder by zero and operations unsupported by the reference impose no membership requirement (well-formedness still checked)",
+            "verdicts on the release profile",
+        ],
+        run,
+        replay,
     }
+}
+
+// ---------------------------------------------------------------------------
+// Observed intervals and gamma
+
+pub fn smin(w: u32) -> i128 {
+    if w >= 16 {
+        i128::MIN
+    } else {
+        -(1i128 << (8 * w - 1))
+    }
+}
+pub fn smax(w: u32) -> i128 {
+    if w >= 16 {
+        i128::MAX
+    } else {
+        (1i128 << (8 * w - 1)) - 1
+    }
+}
+
+/// A strided interval as the harness sees it (signed bounds, width in bytes).
+#[derive(Clone, Copy, Debug, PartialEq, Eq, Hash)]
+pub struct Iv {
+    pub s: i128,
+    pub e: i128,
+    pub stride: u64,
+    pub w: u32,
+}
+
+pub const FULL: [u64; 4] = [u64::MAX; 4];
+
+impl Iv {
+    pub fn single(x: i128, w: u32) -> Iv {
+        Iv { s: x, e: x, stride: 0, w }
+    }
+    pub fn top(w: u32) -> Iv {
+        Iv { s: smin(w), e: smax(w), stride: 1, w }
+    }
+    pub fn is_top(&self) -> bool {
+        self.s == smin(self.w) && self.e == smax(self.w) && self.stride == 1
+    }
+    pub fn is_single(&self) -> bool {
+        self.s == self.e
+    }
+    /// end - start as an unsigned number (only meaningful if s <= e).
+    pub fn span(&self) -> u128 {
+        (self.e as u128).wrapping_sub(self.s as u128)
+    }
+    /// Index of the last member (members are k = 0..=steps).
+    pub fn steps(&self) -> u128 {
+        if self.stride == 0 {
+            0
+        } else {
+            self.span() / self.stride as u128
+        }
+    }
+    pub fn wf(&self) -> bool {
+        self.s <= self.e
+            && ((self.stride == 0) == (self.s == self.e))
+            && (self.stride == 0 || self.span() % self.stride as u128 == 0)
+            && self.s >= smin(self.w)
+            && self.e <= smax(self.w)
+    }
+    pub fn member(&self, k: u128) -> V {
+        let off = k.wrapping_mul(self.stride as u128);
+        V::new((self.s as u128).wrapping_add(off), self.w)
+    }
+    /// Membership in gamma = {start, start+stride, .., end}.
+    pub fn contains(&self, v: V) -> bool {
+        if v.w != self.w {
+            return false;
+        }
+        let x = v.s();
+        if x < self.s || x > self.e {
+            return false;
+        }
+        let d = (x as u128).wrapping_sub(self.s as u128);
+        if self.stride == 0 {
+            d == 0
+        } else {
+            d % self.stride as u128 == 0
+        }
+    }
+    /// gamma as a bitmap over the unsigned byte value (1-byte intervals only).
+    pub fn bitmap(&self) -> [u64; 4] {
+        debug_assert!(self.w == 1);
+        let mut bm = [0u64; 4];
+        let mut x = self.s;
+        while x <= self.e {
+            let u = (x as u8) as usize;
+            bm[u >> 6] |= 1u64 << (u & 63);
+            if self.stride == 0 {
+                break;
+            }
+            x += self.stride as i128;
+        }
+        bm
+    }
+    /// All members (as unsigned bytes) of a 1-byte interval, in signed order.
+    pub fn members_u8(&self) -> Vec<u8> {
+        let mut v = Vec::new();
+        let mut x = self.s;
+        while x <= self.e {
+            v.push(x as u8);
+            if self.stride == 0 {
+                break;
+            }
+            x += self.stride as i128;
+        }
+        v
+    }
+    /// All members if there are at most `cap` of them.
+    pub fn all_members(&self, cap: u128) -> Option<Vec<V>> {
+        let n = self.steps();
+        if n >= cap {
+            return None;
+        }
+        Some((0..=n).map(|k| self.member(k)).collect())
+    }
+    /// A deterministic selection of members: ends, ends +- stride, middle.
+    pub fn std_members(&self) -> Vec<V> {
+        let n = self.steps();
+        let mut ks = vec![0, n];
+        if n >= 2 {
+            ks.extend_from_slice(&[1, n - 1, n / 2]);
+        }
+        let mut out: Vec<V> = Vec::new();
+        for k in ks {
+            let m = self.member(k);
+            if !out.contains(&m) {
+                out.push(m);
+            }
+        }
+        out
+    }
+    pub fn fp(&self) -> u64 {
+        let a = mix(self.s as u64, (self.s >> 64) as u64 ^ 0x51);
+        let b = mix(self.e as u64, (self.e >> 64) as u64 ^ 0x52);
+        mix(mix(a, b), mix(self.stride, self.w as u64))
+    }
+    pub fn show(&self) -> String {
+        format!("[{}, {}] stride {} ({} byte)", self.s, self.e, self.stride, self.w)
+    }
+    /// Smallness measure for violation minimisation.
+    pub fn size(&self) -> u64 {
+        let bl = |x: i128| (128 - x.unsigned_abs().leading_zeros()) as u64;
+        bl(self.s) + bl(self.e) + (64 - self.stride.leading_zeros()) as u64 + 2 * self.w as u64
+    }
+}
+
+#[inline]
+pub fn bm_test(bm: &[u64; 4], u: usize) -> bool {
+    (bm[u >> 6] >> (u & 63)) & 1 == 1
+}
+
+/// Everything observable of an `IntervalDomain` (read from its serde form).
+#[derive(Clone, Debug)]
+pub struct Obs {
+    pub iv: Iv,
+    /// width of the `end` bitvector (must equal `iv.w`)
+    pub end_w: u32,
+    pub lo: Option<V>,
+    pub hi: Option<V>,
+    pub delay: u64,
+}
+
+fn parse_bv(j: &Value) -> Result<V, String> {
+    let bits = match &j["width"] {
+        Value::Array(a) => a.first().and_then(|x| x.as_u64()),
+        x => x.as_u64(),
+    }
+    .ok_or_else(|| format!("no width in {j}"))?;
+    if bits == 0 || bits % 8 != 0 || bits > 128 {
+        return Err(format!("bit width {bits} is not a whole number of bytes <= 16"));
+    }
+    let digits = j["digits"].as_array().ok_or_else(|| format!("no digits in {j}"))?;
+    let mut v: u128 = 0;
+    for (i, d) in digits.iter().enumerate() {
+        let d = d.as_u64().ok_or("digit not u64")? as u128;
+        if i < 2 {
+            v |= d << (64 * i);
+        } else if d != 0 {
+            return Err("more than 128 bits of digits".into());
+        }
+    }
+    Ok(V::new(v, (bits / 8) as u32))
+}
+
+fn parse_opt_bv(j: &Value) -> Result<Option<V>, String> {
+    if j.is_null() {
+        Ok(None)
+    } else {
+        parse_bv(j).map(Some)
+    }
+}
+
+pub fn observe(d: &IntervalDomain) -> Result<Obs, String> {
+    let j = serde_json::to_value(d).map_err(|e| e.to_string())?;
+    let s = parse_bv(&j["interval"]["start"])?;
+    let e = parse_bv(&j["interval"]["end"])?;
+    let stride = j["interval"]["stride"].as_u64().ok_or("no stride")?;
+    Ok(Obs {
+        iv: Iv { s: s.s(), e: e.s(), stride, w: s.w },
+        end_w: e.w,
+        // NB: the serde names are taken literally; gamma does not depend on them.
+        hi: parse_opt_bv(&j["widening_upper_bound"])?,
+        lo: parse_opt_bv(&j["widening_lower_bound"])?,
+        delay: j["widening_delay"].as_u64().ok_or("no delay")?,
+    })
+}
+
+/// The well-formedness predicate of the property. `None` = well-formed.
+pub fn wf_error(o: &Obs, exp_w: Option<u32>) -> Option<(&'static str, String)> {
+    let iv = &o.iv;
+    if o.end_w != iv.w {
+        return Some(("bound-widths", format!("start has {} bytes, end has {} bytes", iv.w, o.end_w)));
+    }
+    if let Some(w) = exp_w {
+        if iv.w != w {
+            return Some(("width", format!("interval has {} bytes, the operation's result has {w} bytes", iv.w)));
+        }
+    }
+    if iv.s > iv.e {
+        return Some(("start>end", format!("start {} >s end {}", iv.s, iv.e)));
+    }
+    if (iv.stride == 0) != (iv.s == iv.e) {
+        return Some(("stride0-iff-singleton", format!("start {} end {} stride {}", iv.s, iv.e, iv.stride)));
+    }
+    if iv.stride != 0 && iv.span() % iv.stride as u128 != 0 {
+        return Some(("end-off-stride", format!("end-start = {} is not a multiple of stride {}", iv.span(), iv.stride)));
+    }
+    for (name, h) in [("lower", &o.lo), ("upper", &o.hi)] {
+        if let Some(h) = h {
+            if h.w != iv.w {
+                return Some(("hint-width", format!("widening {name} bound has {} bytes, interval has {}", h.w, iv.w)));
+            }
+        }
+    }
+    None
+}
+
+pub fn vjson(v: V) -> Value {
+    json!([format!("{:#x}", v.v), v.w])
+}
+
+pub fn vparse(j: &Value) -> Option<V> {
+    let s = j.get(0)?.as_str()?;
+    let w = j.get(1)?.as_u64()? as u32;
+    if !(1..=16).contains(&w) {
+        return None;
+    }
+    let v = u128::from_str_radix(s.trim_start_matches("0x"), 16).ok()?;
+    Some(V::new(v, w))
+}
+
+// ---------------------------------------------------------------------------
+// Construction of inputs
+
+#[derive(Clone, Copy, Debug, Default)]
+pub struct Hints {
+    pub lo: Option<V>,
+    pub hi: Option<V>,
+    pub delay: u64,
+}
+
+impl Hints {
+    pub fn none() -> Hints {
+        Hints::default()
+    }
+}
+
+/// An input value together with what the harness knows about it.
+#[derive(Clone, Debug)]
+pub struct Input {
+    pub dom: IntervalDomain,
+    pub iv: Iv,
+    pub hinted: bool,
+}
+
+/// Build an `IntervalDomain` for a well-formed `iv`; hints go through the public API, the delay through serde.
+pub fn build(iv: Iv, h: &Hints) -> Result<Input, String> {
+    debug_assert!(iv.wf());
+    let interval = Interval { start: to_bv(V::from_i(iv.s, iv.w)), end: to_bv(V::from_i(iv.e, iv.w)), stride: iv.stride };
+    let mut dom = IntervalDomain::from(interval);
+    if h.lo.is_some() || h.hi.is_some() {
+        let (lo, hi) = (h.lo.map(to_bv), h.hi.map(to_bv));
+        dom = guard(move || {
+            dom.update_widening_lower_bound(&lo);
+            dom.update_widening_upper_bound(&hi);
+            dom
+        })
+        .map_err(|p| format!("update_widening_*_bound panicked: {p}"))?;
+    }
+    if h.delay != 0 {
+        let mut j = serde_json::to_value(&dom).map_err(|e| e.to_string())?;
+        j["widening_delay"] = json!(h.delay);
+        dom = serde_json::from_value(j).map_err(|e| e.to_string())?;
+    }
+    let o = observe(&dom)?;
+    if o.iv != iv {
+        return Err(format!("constructed {} but observed {}", iv.show(), o.iv.show()));
+    }
+    Ok(Input { dom, iv, hinted: o.lo.is_some() || o.hi.is_some() || o.delay != 0 })
+}
+
+pub fn build_plain(iv: Iv) -> Input {
+    let interval = Interval { start: to_bv(V::from_i(iv.s, iv.w)), end: to_bv(V::from_i(iv.e, iv.w)), stride: iv.stride };
+    Input { dom: IntervalDomain::from(interval), iv, hinted: false }
+}
+
+/// The universe of all well-formed 1-byte intervals.
+pub fn build_u1() -> Vec<Iv> {
+    let mut u = Vec::with_capacity(171_000);
+    for s in -128i128..=127 {
+        for e in s..=127 {
+            if s == e {
+                u.push(Iv { s, e, stride: 0, w: 1 });
+            } else {
+                let diff = (e - s) as u64;
+                for d in 1..=diff {
+                    if diff % d == 0 {
+                        u.push(Iv { s, e, stride: d, w: 1 });
+                    }
+                }
+            }
+        }
+    }
+    u
+}
+
+fn sbiased(rng: &mut Rng, w: u32) -> i128 {
+    V::new(rng.biased(w), w).s()
+}
+
+/// start + stride*count, clipped so that it stays inside the width.
+fn fit(s: i128, stride: u64, count: u128, w: u32) -> Iv {
+    let max_span = (smax(w) as u128).wrapping_sub(s as u128);
+    if stride == 0 {
+        return Iv::single(s, w);
+    }
+    let count = count.min(max_span / stride as u128);
+    if count == 0 {
+        return Iv::single(s, w);
+    }
+    let e = (s as u128).wrapping_add(count * stride as u128) as i128;
+    Iv { s, e, stride, w }
+}
+
+fn pick_divisor(rng: &mut Rng, diff: u128) -> u64 {
+    if diff == 0 {
+        return 0;
+    }
+    if diff > u64::MAX as u128 {
+        return 1;
+    }
+    let d = diff as u64;
+    match rng.below(6) {
+        0 | 1 => 1,
+        2 => d,
+        3 => 1u64 << d.trailing_zeros(),
+        4 => {
+            let cands = [2u64, 3, 4, 5, 6, 7, 8, 9, 10, 12, 15, 16, 17, 32, 64, 85, 127, 128, 255, 256, 257, 1000, 65535, 65536];
+            let start = rng.usize_below(cands.len());
+            for i in 0..cands.len() {
+                let c = cands[(start + i) % cands.len()];
+                if d % c == 0 {
+                    return if rng.bool() { c } else { d / c };
+                }
+            }
+            1
+        }
+        _ => {
+            // random divisor by trial of a random small number
+            let c = rng.below(64) + 1;
+            if d % c == 0 {
+                d / c
+            } else {
+                1
+            }
+        }
+    }
+}
+
+/// Boundary-biased well-formed interval of width `w` (1..=16).
+pub fn gen_iv(rng: &mut Rng, w: u32) -> Iv {
+    let (lo, hi) = (smin(w), smax(w));
+    let sw = w.min(8);
+    let iv = match rng.below(11) {
+        0 => Iv::single(sbiased(rng, w), w),
+        1 => {
+            let opts = [(lo, hi), (0, hi), (lo, -1), (-1, 0), (0, 1), (-1, 1), (lo, lo + 1), (hi - 1, hi), (-2, 2), (0, 255.min(hi))];
+            let (s, e) = *rng.pick(&opts);
+            Iv { s, e, stride: 1, w }
+        }
+        2 | 3 | 4 => {
+            let s = if rng.bool() { sbiased(rng, w) } else { rng.range_i64(-16, 16) as i128 };
+            let s = s.clamp(lo, hi);
+            let stride = match rng.below(5) {
+                0 | 1 => 1,
+                2 => *rng.pick(&[2u64, 3, 4, 8]),
+                3 => rng.below(16) + 1,
+                _ => 1u64 << rng.below((8 * sw - 1) as u64),
+            };
+            let count = rng.below(8) as u128 + 1;
+            let mut iv = fit(s, stride, count, w);
+            if iv.is_single() && rng.bool() {
+                // did not fit upwards: grow downwards instead
+                let span = stride as u128 * count;
+                let room = (s as u128).wrapping_sub(lo as u128);
+                if span <= room {
+                    iv = Iv { s: (s as u128).wrapping_sub(span) as i128, e: s, stride, w };
+                }
+            }
+            iv
+        }
+        5 | 6 => {
+            let (a, b) = (sbiased(rng, w), sbiased(rng, w));
+            let (s, e) = if a <= b { (a, b) } else { (b, a) };
+            let diff = (e as u128).wrapping_sub(s as u128);
+            Iv { s, e, stride: pick_divisor(rng, diff), w }
+        }
+        7 => {
+            let s = sbiased(rng, w);
+            let stride = (rng.biased(sw) as u64).max(1);
+            let max_count = (hi as u128).wrapping_sub(s as u128) / stride as u128;
+            let count = if rng.bool() { rng.below(8) as u128 + 1 } else { rng.next_u128() % max_count.saturating_add(1) };
+            fit(s, stride, count.max(1), w)
+        }
+        8 => {
+            let a = V::new(rng.next_u128(), w).s();
+            let b = V::new(rng.next_u128(), w).s();
+            let (s, e) = if a <= b { (a, b) } else { (b, a) };
+            Iv { s, e, stride: (s != e) as u64, w }
+        }
+        9 => {
+            let k = rng.below((8 * sw) as u64) as u32;
+            let stride = 1u64 << k;
+            let r = rng.below(stride.min(1 << 20)) as u128;
+            let s = (lo as u128).wrapping_add(r) as i128;
+            fit(s, stride, u128::MAX, w)
+        }
+        _ => {
+            // around zero / sign crossing with a stride
+            let stride = rng.below(40) + 1;
+            let below = rng.below(6) as i128;
+            let s = (-(below * stride as i128) + rng.range_i64(-1, 1) as i128).clamp(lo, hi);
+            fit(s, stride, rng.below(12) as u128 + 1, w)
+        }
+    };
+    debug_assert!(iv.wf(), "{iv:?}");
+    iv
+}
+
+/// Hint configurations that have a chance to be accepted by `update_widening_*_bound`.
+pub fn gen_hints(rng: &mut Rng, iv: &Iv) -> Hints {
+    let w = iv.w;
+    let step = iv.stride.max(1) as i128;
+    let near = |rng: &mut Rng, base: i128, dir: i128| -> Option<V> {
+        let k = rng.below(8) as i128 + 1;
+        let off = if rng.bool() { step.checked_mul(k)? } else { rng.below(300) as i128 + 1 };
+        let x = base.checked_add(dir * off)?;
+        if x < smin(w) || x > smax(w) {
+            None
+        } else {
+            Some(V::from_i(x, w))
+        }
+    };
+    let lo = match rng.below(4) {
+        0 => None,
+        1 | 2 => near(rng, iv.s, -1),
+        _ => Some(V::new(rng.biased(w), w)),
+    };
+    let hi = match rng.below(4) {
+        0 => None,
+        1 | 2 => near(rng, iv.e, 1),
+        _ => Some(V::new(rng.biased(w), w)),
+    };
+    let delay = match rng.below(6) {
+        0 | 1 => 0,
+        2 => rng.below(8) + 1,
+        3 => iv.span().min(u64::MAX as u128) as u64,
+        4 => u64::MAX,
+        _ => rng.next_u64() >> rng.below(64),
+    };
+    Hints { lo, hi, delay }
+}
+
+/// Input with (probability 1/2) hints.
+pub fn gen_input(rng: &mut Rng, w: u32, rep: &mut Report) -> Input {
+    let iv = gen_iv(rng, w);
+    input_for(rng, iv, rep)
+}
+
+pub fn input_for(rng: &mut Rng, iv: Iv, rep: &mut Report) -> Input {
+    if rng.bool() {
+        let h = gen_hints(rng, &iv);
+        match build(iv, &h) {
+            Ok(i) => return i,
+            Err(e) => {
+                rep.inconclusive("input-construction");
+                rep.note(format!("input construction failed for {} with {h:?}: {e}", iv.show()));
+            }
+        }
+    }
+    build_plain(iv)
+}
+
+/// Sampled members: ends, ends +- stride, middle, and `extra` random on-stride members.
+pub fn sample_members(rng: &mut Rng, iv: &Iv, extra: usize) -> Vec<V> {
+    let mut out = iv.std_members();
+    let n = iv.steps();
+    if n > 2 {
+        for _ in 0..extra {
+            let k = if n == u128::MAX { rng.next_u128() } else { rng.next_u128() % (n + 1) };
+            let m = iv.member(k);
+            if !out.contains(&m) {
+                out.push(m);
+            }
+        }
+    }
+    out
+}
+
+// ---------------------------------------------------------------------------
+// Oracle core
+
+pub fn dom_json(d: &IntervalDomain) -> Value {
+    serde_json::to_value(d).unwrap_or(Value::Null)
+}
+
+/// Common part of every check: panic => violation, unobservable/ill-formed result => violation.
+/// Returns the result and its observation if it is well-formed.
+pub fn judge(
+    rep: &mut Report,
+    sig: &dyn Fn(&str) -> String,
+    desc: &dyn Fn() -> String,
+    res: Result<IntervalDomain, String>,
+    exp_w: Option<u32>,
+    case: &dyn Fn() -> Value,
+    size: u64,
+) -> Option<(IntervalDomain, Obs)> {
+    match res {
+        Err(p) => {
+            rep.violation(sig(&format!("panic:{}", panic_site(&p))), None, format!("{} panicked inside the input domain: {p}", desc()), case(), size);
+            None
+        }
+        Ok(r) => match observe(&r) {
+            Err(e) => {
+                rep.violation(sig("illformed:unobservable"), None, format!("{}: result cannot be read as an interval of whole bytes: {e}", desc()), case(), size);
+                None
+            }
+            Ok(o) => {
+                if let Some((kind, d)) = wf_error(&o, exp_w) {
+                    rep.violation(
+                        sig(&format!("illformed:{kind}")),
+                        None,
+                        format!("{} = {} is ill-formed: {d}; expected start <=s end, (end-start) % stride == 0, stride == 0 <=> start == end, width {exp_w:?}", desc(), o.iv.show()),
+                        case(),
+                        size,
+                    );
+                    None
+                } else {
+                    Some((r, o))
+                }
+            }
+        },
+    }
+}
+
+/// Domain guard for binary operations (what the code legitimately asserts).
+pub fn bin_in_domain(op: BinOpType, a: &Iv, b: &Iv) -> bool {
+    if op == BinOpType::Piece {
+        return a.w + b.w <= 16;
+    }
+    if pref::is_shift(op) {
+        return b.w <= 8;
+    }
+    if pref::is_bool_bin(op) {
+        return a.w == 1 && b.w == 1 && a.s >= 0 && a.e <= 1 && b.s >= 0 && b.e <= 1;
+    }
+    a.w == b.w
+}
+
+fn result_class(rep: &mut Report, o: &Obs) {
+    if o.iv.is_top() {
+        rep.obs("result:top");
+    } else if o.iv.is_single() {
+        rep.obs("result:singleton");
+    } else {
+        rep.obs("result:interval");
+    }
+    if o.lo.is_some() || o.hi.is_some() {
+        rep.obs("result:with-hints");
+    }
+}
+
+/// Binary operation, witness path: `wa`/`wb` are members of gamma(a)/gamma(b).
+pub fn check_bin_w(op: BinOpType, a: &Input, b: &Input, wa: &[V], wb: &[V], rep: &mut Report, track: bool) -> Option<(IntervalDomain, Obs)> {
+    if !bin_in_domain(op, &a.iv, &b.iv) {
+        return None;
+    }
+    rep.eval();
+    let exp_w = pref::bin_width(op, a.iv.w, b.iv.w);
+    let sig = |what: &str| format!("bin:{op:?}:w{}x{}:{what}", a.iv.w, b.iv.w);
+    let desc = || format!("IntervalDomain::bin_op({op:?}, {}, {})", a.iv.show(), b.iv.show());
+    let size = a.iv.size() + b.iv.size() + 8 * (a.hinted as u64 + b.hinted as u64);
+    let case = || json!({"kind":"bin","op":op,"a":dom_json(&a.dom),"b":dom_json(&b.dom),"wa":wa.iter().map(|v| vjson(*v)).collect::<Vec<_>>(),"wb":wb.iter().map(|v| vjson(*v)).collect::<Vec<_>>()});
+    let res = guard(|| a.dom.bin_op(op, &b.dom));
+    let (r, o) = judge(rep, &sig, &desc, res, exp_w, &case, size)?;
+    let mut known = 0u64;
+    'outer: for x in wa {
+        for y in wb {
+            if let Some(z) = pref::bin(op, *x, *y) {
+                known += 1;
+                if !o.iv.contains(z) {
+                    let case1 = json!({"kind":"bin","op":op,"a":dom_json(&a.dom),"b":dom_json(&b.dom),"wa":[vjson(*x)],"wb":[vjson(*y)]});
+                    rep.violation(
+                        sig("unsound"),
+                        None,
+                        format!("{} = {}: member {:#x} op member {:#x} = {:#x} (reference) is not in gamma(result)", desc(), o.iv.show(), x.v, y.v, z.v),
+                        case1,
+                        size,
+                    );
+                    break 'outer;
+                }
+            }
+        }
+    }
+    if track {
+        rep.obs(&format!("bin:{op:?}:w{}x{}", a.iv.w, b.iv.w));
+        result_class(rep, &o);
+        if known == 0 {
+            rep.obs("reference-unknown-for-all-members");
+        }
+        if !o.iv.is_top() && !(a.iv.is_single() && b.iv.is_single()) {
+            rep.nontrivial(mix(mix(op as u64 + 1, a.iv.fp()), b.iv.fp()));
+        }
+    }
+    Some((r, o))
+}
+
+pub const UNK: u32 = u32::MAX;
+
+/// Reference table of a binary operation on 1-byte operands (index a*256+b).
+pub fn build_table(op: BinOpType) -> Vec<u32> {
+    let mut t = vec![UNK; 65536];
+    for a in 0..256u128 {
+        for b in 0..256u128 {
+            if let Some(r) = pref::bin(op, V::new(a, 1), V::new(b, 1)) {
+                t[(a * 256 + b) as usize] = r.v as u32;
+            }
+        }
+    }
+    t
+}
+
+/// 1-byte input with its member list.
+pub struct In1 {
+    pub inp: Input,
+    pub members: Vec<u8>,
+}
+
+impl In1 {
+    pub fn new(inp: Input) -> In1 {
+        let members = inp.iv.members_u8();
+        In1 { inp, members }
+    }
+}
+
+/// Binary operation on 1-byte operands, all members of both operands.
+pub fn check_bin_u1(op: BinOpType, tbl: &[u32], a: &In1, b: &In1, rep: &mut Report, track: bool) {
+    let (ai, bi) = (&a.inp, &b.inp);
+    if !bin_in_domain(op, &ai.iv, &bi.iv) {
+        return;
+    }
+    rep.eval();
+    let exp_w = pref::bin_width(op, 1, 1);
+    let sig = |what: &str| format!("bin:{op:?}:w1x1:{what}");
+    let desc = || format!("IntervalDomain::bin_op({op:?}, {}, {})", ai.iv.show(), bi.iv.show());
+    let size = ai.iv.size() + bi.iv.size() + 8 * (ai.hinted as u64 + bi.hinted as u64);
+    let case = || json!({"kind":"bin","op":op,"a":dom_json(&ai.dom),"b":dom_json(&bi.dom),"wa":[],"wb":[]});
+    let res = guard(|| ai.dom.bin_op(op, &bi.dom));
+    let Some((_r, o)) = judge(rep, &sig, &desc, res, exp_w, &case, size) else { return };
+    let mut bad: Option<(u8, u8, u32)> = None;
+    if o.iv.w == 1 {
+        let bm = o.iv.bitmap();
+        if bm != FULL {
+            'o1: for &x in &a.members {
+                let row = &tbl[(x as usize) * 256..(x as usize) * 256 + 256];
+                for &y in &b.members {
+                    let r = row[y as usize];
+                    if r != UNK && !bm_test(&bm, r as usize) {
+                        bad = Some((x, y, r));
+                        break 'o1;
+                    }
+                }
+            }
+        }
+    } else {
+        'o2: for &x in &a.members {
+            let row = &tbl[(x as usize) * 256..(x as usize) * 256 + 256];
+            for &y in &b.members {
+                let r = row[y as usize];
+                if r != UNK && !o.iv.contains(V::new(r as u128, o.iv.w)) {
+                    bad = Some((x, y, r));
+                    break 'o2;
+                }
+            }
+        }
+    }
+    if let Some((x, y, r)) = bad {
+        let case1 = json!({"kind":"bin","op":op,"a":dom_json(&ai.dom),"b":dom_json(&bi.dom),"wa":[vjson(V::new(x as u128,1))],"wb":[vjson(V::new(y as u128,1))]});
+        rep.violation(
+            sig("unsound"),
+            None,
+            format!("{} = {}: member {x:#x} op member {y:#x} = {r:#x} (reference) is not in gamma(result)", desc(), o.iv.show()),
+            case1,
+            size,
+        );
+    }
+    if track {
+        if !o.iv.is_top() && !(ai.iv.is_single() && bi.iv.is_single()) {
+            rep.nontrivial(mix(mix(op as u64 + 1, ai.iv.fp()), bi.iv.fp()));
+        }
+        result_class(rep, &o);
+        if rep.wants_sample() && !o.iv.is_top() && a.members.len() > 1 && b.members.len() > 1 {
+            rep.sample(json!({"kind":"bin","op":op,"a":dom_json(&ai.dom),"b":dom_json(&bi.dom),"observed_result":o.iv.show(),
+                "checked":"reference image of every member pair is in gamma(result)","member_pairs":a.members.len()*b.members.len()}));
+        }
+    }
+}
+
+/// Generic unary-shaped check (un_op / cast / subpiece): `f` is the real call, `reference` the concrete semantics.
+#[allow(clippy::too_many_arguments)]
+fn check_unary_shape(
+    kind: &str,
+    opname: String,
+    fpk: u64,
+    a: &Input,
+    wa: &[V],
+    exp_w: u32,
+    f: &dyn Fn(&IntervalDomain) -> IntervalDomain,
+    reference: &dyn Fn(V) -> Option<V>,
+    case_extra: Value,
+    rep: &mut Report,
+    track: bool,
+) -> Option<(IntervalDomain, Obs)> {
+    rep.eval();
+    let sig = |what: &str| format!("{kind}:{opname}:w{}:{what}", a.iv.w);
+    let desc = || format!("IntervalDomain::{kind} {opname} on {}", a.iv.show());
+    let size = a.iv.size() + 8 * a.hinted as u64;
+    let mk_case = |w: &[V]| {
+        let mut c = case_extra.clone();
+        c["kind"] = json!(kind);
+        c["a"] = dom_json(&a.dom);
+        c["wa"] = json!(w.iter().map(|v| vjson(*v)).collect::<Vec<_>>());
+        c
+    };
+    let case = || mk_case(if wa.len() > 16 { &[] } else { wa });
+    let res = guard(|| f(&a.dom));
+    let (r, o) = judge(rep, &sig, &desc, res, Some(exp_w), &case, size)?;
+    let mut known = 0u64;
+    if !o.iv.is_top() {
+        for x in wa {
+            if let Some(z) = reference(*x) {
+                known += 1;
+                if !o.iv.contains(z) {
+                    rep.violation(
+                        sig("unsound"),
+                        None,
+                        format!("{} = {}: image {:#x} (reference) of member {:#x} is not in gamma(result)", desc(), o.iv.show(), z.v, x.v),
+                        mk_case(&[*x]),
+                        size,
+                    );
+                    break;
+                }
+            }
+        }
+    } else {
+        known = 1;
+    }
+    if !o.iv.is_top() && !a.iv.is_single() {
+        // the count is a lower bound: untracked (bulk) calls record one fingerprint in eight
+        let fp = mix(fpk, a.iv.fp());
+        if track || fp & 7 == 0 {
+            rep.nontrivial(fp);
+        }
+    }
+    if track {
+        rep.obs(&format!("{kind}:{opname}:w{}", a.iv.w));
+        result_class(rep, &o);
+        if known == 0 {
+            rep.obs("reference-unknown-for-all-members");
+        }
+    }
+    Some((r, o))
+}
+
+pub fn un_in_domain(op: UnOpType, a: &Iv) -> bool {
+    if op == UnOpType::BoolNegate {
+        return a.w == 1 && a.s >= 0 && a.e <= 1;
+    }
+    true
+}
+
+pub fn check_un(op: UnOpType, a: &Input, wa: &[V], rep: &mut Report, track: bool) -> Option<(IntervalDomain, Obs)> {
+    if !un_in_domain(op, &a.iv) {
+        return None;
+    }
+    let exp_w = if op == UnOpType::FloatNaN { 1 } else { a.iv.w };
+    check_unary_shape("un", format!("{op:?}"), 5000 + op as u64, a, wa, exp_w, &|d| d.un_op(op), &|x| pref::un(op, x), json!({"op":op}), rep, track)
+}
+
+pub fn check_cast(op: CastOpType, size: u32, a: &Input, wa: &[V], rep: &mut Report, track: bool) -> Option<(IntervalDomain, Obs)> {
+    if matches!(op, CastOpType::IntZExt | CastOpType::IntSExt) && size < a.iv.w {
+        return None;
+    }
+    if size == 0 || size > 16 {
+        return None;
+    }
+    check_unary_shape(
+        "cast",
+        format!("{op:?}->{size}"),
+        6000 + op as u64 * 32 + size as u64,
+        a,
+        wa,
+        size,
+        &|d| d.cast(op, bs(size)),
+        &|x| pref::cast(op, size, x),
+        json!({"op":op,"size":size}),
+        rep,
+        track,
+    )
+}
+
+pub fn check_subpiece(low: u32, size: u32, a: &Input, wa: &[V], rep: &mut Report, track: bool) -> Option<(IntervalDomain, Obs)> {
+    if size == 0 || low + size > a.iv.w {
+        return None;
+    }
+    check_unary_shape(
+        "subpiece",
+        format!("{low}+{size}"),
+        7000 + low as u64 * 32 + size as u64,
+        a,
+        wa,
+        size,
+        &|d| d.subpiece(bs(low), bs(size)),
+        &|x| Some(pref::subpiece(low, size, x)),
+        json!({"low":low,"size":size}),
+        rep,
+        track,
+    )
+}
+
+// ---------------------------------------------------------------------------
+// Workload
+
+#[derive(Clone, Debug)]
+enum Task {
+    Samples,
+    /// all members of U1 with the given start value: unary ops, casts, subpieces
+    U1Unary(i128),
+    BoolExh,
+    U1Bin(BinOpType, u64),
+    WideBin(BinOpType, u64),
+    WideUn(u32, u64),
+    Chains(u64),
+}
+
+fn vmembers(iv: &Iv) -> Vec<V> {
+    iv.all_members(1 << 16).unwrap_or_else(|| iv.std_members())
+}
+
+/// 2-byte intervals derived from a 1-byte interval (same number of members).
+fn derive_2byte(rng: &mut Rng, a: &Iv, variant: u32) -> Option<Iv> {
+    let (lo, hi) = (smin(2), smax(2));
+    let iv = match variant {
+        0 => Iv { s: a.s, e: a.e, stride: a.stride, w: 2 },
+        1 => {
+            let c = rng.below(256) as i128;
+            Iv { s: a.s * 256 + c, e: a.e * 256 + c, stride: a.stride * 256, w: 2 }
+        }
+        2 => {
+            let offs = [127i128, 128, 255, 256, -129, -128, -256, -257, 0x7f00, -0x7f00, 0x100 - a.s, 0x80 - a.e];
+            let off = if rng.bool() { *rng.pick(&offs) } else { rng.range_i64(lo as i64 - a.s as i64, hi as i64 - a.e as i64) as i128 };
+            Iv { s: a.s + off, e: a.e + off, stride: a.stride, w: 2 }
+        }
+        _ => {
+            let k = rng.range_i64(2, 127) as i128;
+            let c = rng.range_i64(-200, 200) as i128;
+            Iv { s: a.s * k + c, e: a.e * k + c, stride: a.stride * k as u64, w: 2 }
+        }
+    };
+    if iv.s < lo || iv.e > hi || !iv.wf() {
+        None
+    } else {
+        Some(iv)
+    }
+}
+
+fn unary_battery(inp: &Input, members: &[V], plain: bool, rep: &mut Report) {
+    let w = inp.iv.w;
+    for op in pref::INT_UN_OPS {
+        check_un(*op, inp, members, rep, false);
+    }
+    if plain {
+        for op in pref::FLOAT_UN_OPS {
+            check_un(*op, inp, members, rep, false);
+        }
+        for op in pref::FLOAT_CASTS {
+            check_cast(*op, 4, inp, members, rep, false);
+        }
+    }
+    let ext_sizes: &[u32] = if plain { &[1, 2, 3, 4, 8, 16] } else { &[1, 2, 4, 8, 16] };
+    for &size in ext_sizes {
+        if size >= w {
+            check_cast(CastOpType::IntZExt, size, inp, members, rep, false);
+            check_cast(CastOpType::IntSExt, size, inp, members, rep, false);
+        }
+    }
+    for size in [1u32, 2, 4, 8] {
+        check_cast(CastOpType::PopCount, size, inp, members, rep, false);
+        check_cast(CastOpType::LzCount, size, inp, members, rep, false);
+    }
+    for low in 0..w {
+        for size in 1..=(w - low) {
+            check_subpiece(low, size, inp, members, rep, false);
+        }
+    }
+}
+
+fn run_u1_unary(start: i128, u1: &[Iv], cfg: &Cfg, rng: &mut Rng, rep: &mut Report) {
+    let hinted_variants = cfg.tier.pick(1, 3);
+    let derived_variants = cfg.tier.pick(2u32, 4u32);
+    let mut n_in = 0u64;
+    for a in u1.iter().filter(|iv| iv.s == start) {
+        let members = vmembers(a);
+        let plain = build_plain(*a);
+        unary_battery(&plain, &members, true, rep);
+        n_in += 1;
+        for _ in 0..hinted_variants {
+            let h = gen_hints(rng, a);
+            match build(*a, &h) {
+                Ok(inp) => {
+                    if inp.hinted {
+                        unary_battery(&inp, &members, false, rep);
+                        n_in += 1;
+                    }
+                }
+                Err(e) => {
+                    rep.inconclusive("input-construction");
+                    rep.note(format!("input construction failed: {e}"));
+                }
+            }
+        }
+        // sub-pieces (and the other unary operations) of 2-byte intervals derived from `a`
+        for k in 0..derived_variants {
+            let variant = if derived_variants == 4 { k } else { rng.below(4) as u32 };
+            if let Some(iv2) = derive_2byte(rng, a, variant) {
+                let inp = input_for(rng, iv2, rep);
+                let m2 = vmembers(&iv2);
+                unary_battery(&inp, &m2, false, rep);
+                n_in += 1;
+            }
+        }
+    }
+    rep.obs_n("u1-unary:inputs", n_in);
+    if start == 127 {
+        rep.exhaustive_parts.push("every well-formed 1-byte interval x every unary op / cast / subpiece, all members".into());
+    }
+}
+
+/// Boundary-biased choice of a 1-byte interval.
+fn pick_iv1(rng: &mut Rng, u1: &[Iv], op: BinOpType, rhs: bool) -> Iv {
+    if rhs && pref::is_shift(op) && rng.chance(3, 4) {
+        let x = if rng.bool() { rng.below(10) as i128 } else { sbiased(rng, 1) };
+        return Iv::single(x, 1);
+    }
+    match rng.below(8) {
+        0 | 1 => u1[rng.usize_below(u1.len())],
+        2 | 3 => gen_iv(rng, 1),
+        4 | 5 => {
+            let s = rng.range_i64(-12, 12) as i128;
+            let stride = rng.below(6) + 1;
+            fit(s, stride, rng.below(6) as u128 + 1, 1)
+        }
+        6 => Iv::single(sbiased(rng, 1), 1),
+        _ => {
+            let opts = [(-128i128, 127i128), (0, 127), (-128, -1), (-1, 0), (0, 1), (-1, 1), (1, 2), (-2, -1), (126, 127), (-128, -127)];
+            let (s, e) = *rng.pick(&opts);
+            Iv { s, e, stride: 1, w: 1 }
+        }
+    }
+}
+
+fn run_u1_bin(op: BinOpType, n: u64, u1: &[Iv], rng: &mut Rng, rep: &mut Report) {
+    let tbl = build_table(op);
+    for i in 0..n {
+        let a = pick_iv1(rng, u1, op, false);
+        let mut b = pick_iv1(rng, u1, op, true);
+        if rng.chance(1, 16) {
+            b = a;
+        }
+        let a = In1::new(input_for(rng, a, rep));
+        let b = In1::new(input_for(rng, b, rep));
+        check_bin_u1(op, &tbl, &a, &b, rep, i % 16 == 0);
+    }
+    rep.obs_n(&format!("bin:{op:?}:w1x1"), n);
+}
+
+fn run_bool_exh(rng: &mut Rng, rep: &mut Report) {
+    let ivs = [Iv::single(0, 1), Iv::single(1, 1), Iv { s: 0, e: 1, stride: 1, w: 1 }];
+    for op in [BinOpType::BoolAnd, BinOpType::BoolOr, BinOpType::BoolXOr] {
+        let tbl = build_table(op);
+        for a in ivs {
+            for b in ivs {
+                for round in 0..8 {
+                    let (ia, ib) = if round == 0 { (build_plain(a), build_plain(b)) } else { (input_for(rng, a, rep), input_for(rng, b, rep)) };
+                    check_bin_u1(op, &tbl, &In1::new(ia), &In1::new(ib), rep, true);
+                    rep.obs(&format!("bin:{op:?}:w1x1"));
+                }
+            }
+        }
+    }
+    rep.exhaustive_parts.push("BOOL_AND/OR/XOR on all pairs of 1-byte intervals within {0,1}".into());
+}
+
+fn wide_widths(rng: &mut Rng, op: BinOpType) -> (u32, u32) {
+    if op == BinOpType::Piece {
+        loop {
+            let a = *rng.pick(&[1u32, 2, 4, 8]);
+            let b = *rng.pick(&[1u32, 2, 4, 8]);
+            if a + b <= 16 && a + b > 2 {
+                return (a, b);
+            }
+        }
+    }
+    if pref::is_shift(op) {
+        loop {
+            let a = *rng.pick(&[1u32, 2, 4, 8]);
+            let b = *rng.pick(&[1u32, 2, 4, 8]);
+            if a + b > 2 {
+                return (a, b);
+            }
+        }
+    }
+    let w = *rng.pick(&[2u32, 4, 8]);
+    (w, w)
+}
+
+fn run_wide_bin(op: BinOpType, n: u64, rng: &mut Rng, rep: &mut Report) {
+    if pref::is_bool_bin(op) {
+        return;
+    }
+    for i in 0..n {
+        let (aw, bw) = wide_widths(rng, op);
+        let a = gen_input(rng, aw, rep);
+        let mut b = gen_input(rng, bw, rep);
+        if pref::is_shift(op) && rng.chance(3, 4) {
+            let amount = if rng.bool() { rng.below(8 * aw as u64 + 2) as i128 } else { sbiased(rng, bw) };
+            b = input_for(rng, Iv::single(V::from_i(amount, bw).s(), bw), rep);
+        } else if aw == bw && rng.chance(1, 16) {
+            b = a.clone();
+        } else if rng.chance(1, 8) {
+            let x = rng.range_i64(-9, 9) as i128;
+            b = input_for(rng, Iv::single(x, bw), rep);
+        }
+        let wa = sample_members(rng, &a.iv, 3);
+        let wb = sample_members(rng, &b.iv, 3);
+        let r = check_bin_w(op, &a, &b, &wa, &wb, rep, true);
+        if let Some((_, o)) = &r {
+            if i < 64 && rep.wants_sample() && !o.iv.is_top() && !a.iv.is_single() && !b.iv.is_single() {
+                rep.sample(json!({"kind":"bin","op":op,"a":dom_json(&a.dom),"b":dom_json(&b.dom),"members_a":wa.iter().map(|v| vjson(*v)).collect::<Vec<_>>(),
+                    "members_b":wb.iter().map(|v| vjson(*v)).collect::<Vec<_>>(),"observed_result":o.iv.show(),"checked":"reference image of every listed member pair is in gamma(result)"}));
+            }
+        }
+    }
+}
+
+fn run_wide_un(w: u32, n: u64, rng: &mut Rng, rep: &mut Report) {
+    for _ in 0..n {
+        let a = gen_input(rng, w, rep);
+        let wa = sample_members(rng, &a.iv, 4);
+        check_un(UnOpType::Int2Comp, &a, &wa, rep, true);
+        check_un(UnOpType::IntNegate, &a, &wa, rep, true);
+        if rng.chance(1, 8) {
+            check_un(*rng.pick(pref::FLOAT_UN_OPS), &a, &wa, rep, true);
+            check_cast(*rng.pick(pref::FLOAT_CASTS), *rng.pick(&[4u32, 8]), &a, &wa, rep, true);
+        }
+        let target = *rng.pick(&[w, w + 1, 2 * w, 16, 8.max(w)]);
+        check_cast(CastOpType::IntZExt, target.min(16), &a, &wa, rep, true);
+        check_cast(CastOpType::IntSExt, target.min(16), &a, &wa, rep, true);
+        let cw = *rng.pick(&[1u32, 2, 4, 8]);
+        check_cast(CastOpType::PopCount, cw, &a, &wa, rep, true);
+        check_cast(CastOpType::LzCount, cw, &a, &wa, rep, true);
+        let size = rng.range_usize(1, w as usize) as u32;
+        let low = rng.below((w - size + 1) as u64) as u32;
+        check_subpiece(low, size, &a, &wa, rep, true);
+        check_subpiece(0, size, &a, &wa, rep, true);
+        check_subpiece(w - size, size, &a, &wa, rep, true);
+    }
+}
+
+const CHAIN_BIN_OPS: &[BinOpType] = &[
+    BinOpType::IntAdd, BinOpType::IntAdd, BinOpType::IntSub, BinOpType::IntSub, BinOpType::IntMult, BinOpType::IntMult,
+    BinOpType::IntLeft, BinOpType::IntLeft, BinOpType::Piece, BinOpType::Piece, BinOpType::IntAnd, BinOpType::IntOr, BinOpType::IntXOr,
+    BinOpType::IntRight, BinOpType::IntSRight, BinOpType::IntDiv, BinOpType::IntSDiv, BinOpType::IntRem, BinOpType::IntSRem,
+    BinOpType::IntEqual, BinOpType::IntNotEqual, BinOpType::IntLess, BinOpType::IntSLess, BinOpType::IntLessEqual, BinOpType::IntSLessEqual,
+    BinOpType::IntCarry, BinOpType::IntSCarry, BinOpType::IntSBorrow, BinOpType::BoolAnd, BinOpType::BoolOr, BinOpType::BoolXOr,
+];
+
+fn refresh_witnesses(rng: &mut Rng, iv: &Iv, images: Vec<V>) -> Vec<V> {
+    let mut wit: Vec<V> = Vec::new();
+    for v in images {
+        if wit.len() < 8 && !wit.contains(&v) && iv.contains(v) {
+            wit.push(v);
+        }
+    }
+    for v in sample_members(rng, iv, 2) {
+        if wit.len() < 8 && !wit.contains(&v) {
+            wit.push(v);
+        }
+    }
+    wit
+}
+
+/// One witness-shadowed chain. Every abstract value carries <= 8 members of its gamma.
+fn run_chain(rng: &mut Rng, rep: &mut Report) {
+    let w0 = *rng.pick(&[1u32, 1, 2, 4, 8]);
+    let mut cur = gen_input(rng, w0, rep);
+    let mut wit = sample_members(rng, &cur.iv, 3);
+    wit.truncate(8);
+    let len = rng.range_usize(2, 8);
+    let mut steps = 0u64;
+    for _ in 0..len {
+        let w = cur.iv.w;
+        let in_quantifier = matches!(w, 1 | 2 | 4 | 8);
+        let next: Option<(IntervalDomain, Obs, Vec<V>)> = match rng.below(12) {
+            _ if !in_quantifier => {
+                // Widths other than 1/2/4/8 (results of PIECE / extensions) are outside the property's quantifier:
+                // cut the value back to a quantified width with an unjudged sub-piece (state producer, witnesses re-sampled).
+                let c: Vec<u32> = [1u32, 2, 4, 8].into_iter().filter(|s| *s < w).collect();
+                let size = *rng.pick(&c);
+                let low = rng.below((w - size + 1) as u64) as u32;
+                match guard(|| cur.dom.subpiece(bs(low), bs(size))) {
+                    Ok(r) => match observe(&r) {
+                        Ok(o) if wf_error(&o, Some(size)).is_none() => {
+                            rep.obs("chain:unjudged-subpiece-of-wide-value");
+                            Some((r, o, Vec::new()))
+                        }
+                        _ => None,
+                    },
+                    Err(_) => None,
+                }
+            }
+            0..=5 => {
+                let op = *rng.pick(CHAIN_BIN_OPS);
+                let cur_left = rng.bool();
+                let ow = if op == BinOpType::Piece {
+                    if w >= 16 {
+                        continue;
+                    }
+                    *rng.pick(&[1u32, 2, 4, 8]).min(&(16 - w))
+                } else if pref::is_shift(op) {
+                    if cur_left {
+                        *rng.pick(&[1u32, 2, 4, 8])
+                    } else if w > 8 {
+                        continue;
+                    } else {
+                        *rng.pick(&[1u32, 2, 4, 8])
+                    }
+                } else {
+                    w
+                };
+                let (other, wo) = if ow == w && rng.chance(1, 8) {
+                    (cur.clone(), wit.clone())
+                } else {
+                    let o = if pref::is_shift(op) && cur_left && rng.chance(3, 4) {
+                        let x = rng.below(8 * w as u64 + 2) as i128 % (smax(ow) + 1);
+                        input_for(rng, Iv::single(x, ow), rep)
+                    } else if rng.chance(1, 4) {
+                        let x = rng.range_i64(-5, 5) as i128;
+                        input_for(rng, Iv::single(x, ow), rep)
+                    } else {
+                        gen_input(rng, ow, rep)
+                    };
+                    let mut m = sample_members(rng, &o.iv, 2);
+                    m.truncate(8);
+                    (o, m)
+                };
+                let (a, b, wa, wb) = if cur_left { (&cur, &other, &wit, &wo) } else { (&other, &cur, &wo, &wit) };
+                if !bin_in_domain(op, &a.iv, &b.iv) {
+                    continue;
+                }
+                let mut images = Vec::new();
+                for x in wa.iter() {
+                    for y in wb.iter() {
+                        if let Some(z) = pref::bin(op, *x, *y) {
+                            images.push(z);
+                        }
+                    }
+                }
+                rng.shuffle(&mut images);
+                check_bin_w(op, a, b, wa, wb, rep, true).map(|(r, o)| (r, o, images))
+            }
+            6 => {
+                let op = *rng.pick(&[UnOpType::Int2Comp, UnOpType::IntNegate, UnOpType::BoolNegate]);
+                if !un_in_domain(op, &cur.iv) {
+                    continue;
+                }
+                let images = wit.iter().filter_map(|x| pref::un(op, *x)).collect();
+                check_un(op, &cur, &wit, rep, true).map(|(r, o)| (r, o, images))
+            }
+            7 | 8 => {
+                let op = *rng.pick(pref::INT_CASTS);
+                let size = if matches!(op, CastOpType::IntZExt | CastOpType::IntSExt) {
+                    let c: Vec<u32> = [1u32, 2, 4, 8, 16].into_iter().filter(|s| *s >= w).collect();
+                    *rng.pick(&c)
+                } else {
+                    *rng.pick(&[1u32, 2, 4, 8])
+                };
+                let images = wit.iter().filter_map(|x| pref::cast(op, size, *x)).collect();
+                check_cast(op, size, &cur, &wit, rep, true).map(|(r, o)| (r, o, images))
+            }
+            9 => {
+                if w < 2 {
+                    continue;
+                }
+                let size = rng.range_usize(1, w as usize - 1) as u32;
+                let low = rng.below((w - size + 1) as u64) as u32;
+                let images = wit.iter().map(|x| pref::subpiece(low, size, *x)).collect();
+                check_subpiece(low, size, &cur, &wit, rep, true).map(|(r, o)| (r, o, images))
+            }
+            10 => {
+                // state producer (not judged here, C03 judges merge): merge with a fresh value; witnesses are re-sampled
+                let other = gen_input(rng, w, rep);
+                match guard(|| cur.dom.merge(&other.dom)) {
+                    Ok(r) => match observe(&r) {
+                        Ok(o) if wf_error(&o, Some(w)).is_none() => {
+                            rep.obs("chain:merge-step");
+                            Some((r, o, Vec::new()))
+                        }
+                        _ => None,
+                    },
+                    Err(_) => None,
+                }
+            }
+            _ => {
+                // state producer (judged by C04): conditional refinement creates widening hints
+                let bound = to_bv(V::new(rng.biased(w), w));
+                let d = cur.dom.clone();
+                let le = rng.bool();
+                let r = guard(move || if le { d.add_signed_less_equal_bound(&bound) } else { d.add_signed_greater_equal_bound(&bound) });
+                match r {
+                    Ok(Ok(r)) => match observe(&r) {
+                        Ok(o) if wf_error(&o, Some(w)).is_none() => {
+                            rep.obs("chain:refine-step");
+                            Some((r, o, Vec::new()))
+                        }
+                        _ => None,
+                    },
+                    _ => continue,
+                }
+            }
+        };
+        let Some((r, o, images)) = next else { break };
+        steps += 1;
+        wit = refresh_witnesses(rng, &o.iv, images);
+        let hinted = o.lo.is_some() || o.hi.is_some() || o.delay != 0;
+        cur = Input { dom: r, iv: o.iv, hinted };
+        if hinted {
+            rep.obs("chain:state-with-hints");
+        }
+    }
+    rep.obs_n("chain:steps", steps);
+    rep.obs("chains");
+}
+
+fn run_samples(rep: &mut Report) {
+    // a few complete, hand-picked cases that go through the same check functions
+    let mk = |s: i128, e: i128, stride: u64, w: u32| build_plain(Iv { s, e, stride, w });
+    let cases: Vec<(BinOpType, Input, Input)> = vec![
+        (BinOpType::IntAdd, mk(-3, 9, 4, 1), mk(10, 16, 6, 1)),
+        (BinOpType::IntMult, mk(0, 0, 0, 1), mk(1, 5, 1, 1)),
+        (BinOpType::Piece, mk(1, 2, 1, 1), mk(-128, 0, 128, 1)),
+        (BinOpType::IntLeft, mk(-3, 5, 2, 2), mk(3, 3, 0, 1)),
+    ];
+    for (op, a, b) in cases {
+        let (wa, wb) = (vmembers(&a.iv), vmembers(&b.iv));
+        if let Some((_, o)) = check_bin_w(op, &a, &b, &wa, &wb, rep, true) {
+            let mut images: Vec<String> = Vec::new();
+            for x in &wa {
+                for y in &wb {
+                    if let Some(z) = pref::bin(op, *x, *y) {
+                        let s = format!("{}", z.s());
+                        if !images.contains(&s) {
+                            images.push(s);
+                        }
+                    }
+                }
+            }
+            rep.sample(json!({"kind":"bin","op":op,"a":a.iv.show(),"b":b.iv.show(),"reference_images_of_all_member_pairs":images,"observed_result":o.iv.show(),"verdict":"all images are members, result well-formed"}));
+        }
+    }
+    let a = mk(-2, 4, 3, 1);
+    let wa = vmembers(&a.iv);
+    if let Some((_, o)) = check_cast(CastOpType::IntZExt, 2, &a, &wa, rep, true) {
+        rep.sample(json!({"kind":"cast","op":"IntZExt","size":2,"a":a.iv.show(),"reference_images":wa.iter().map(|x| pref::cast(CastOpType::IntZExt,2,*x).unwrap().v).collect::<Vec<_>>(),"observed_result":o.iv.show()}));
+    }
+}
+
+fn run_task(task: &Task, u1: &[Iv], cfg: &Cfg, rng: &mut Rng, rep: &mut Report) {
+    match task {
+        Task::Samples => run_samples(rep),
+        Task::U1Unary(s) => run_u1_unary(*s, u1, cfg, rng, rep),
+        Task::BoolExh => run_bool_exh(rng, rep),
+        Task::U1Bin(op, n) => run_u1_bin(*op, *n, u1, rng, rep),
+        Task::WideBin(op, n) => run_wide_bin(*op, *n, rng, rep),
+        Task::WideUn(w, n) => run_wide_un(*w, *n, rng, rep),
+        Task::Chains(n) => {
+            for _ in 0..*n {
+                run_chain(rng, rep);
+            }
+        }
+    }
+}
+
+fn heavy(op: BinOpType) -> bool {
+    matches!(op, BinOpType::IntAdd | BinOpType::IntSub | BinOpType::IntMult | BinOpType::IntLeft | BinOpType::Piece)
+}
+
+fn run(cfg: &Cfg) -> Report {
+    let u1 = build_u1();
+    let mut tasks: Vec<Task> = vec![Task::Samples, Task::BoolExh];
+    // shards of 25 000 pairs
+    let shard = 25_000u64;
+    for op in pref::INT_BIN_OPS {
+        if pref::is_bool_bin(*op) {
+            continue;
+        }
+        let pairs = if heavy(*op) { cfg.tier.pick(200_000u64, 10_000_000) } else { cfg.tier.pick(50_000u64, 2_000_000) };
+        for _ in 0..pairs / shard {
+            tasks.push(Task::U1Bin(*op, shard));
+        }
+        let wide = if heavy(*op) { cfg.tier.pick(100_000u64, 4_000_000) } else { cfg.tier.pick(25_000u64, 1_000_000) };
+        for _ in 0..wide / shard {
+            tasks.push(Task::WideBin(*op, shard));
+        }
+    }
+    for op in pref::FLOAT_BIN_OPS {
+        tasks.push(Task::U1Bin(*op, 2_000));
+        tasks.push(Task::WideBin(*op, 2_000));
+    }
+    for s in -128i128..=127 {
+        tasks.push(Task::U1Unary(s));
+    }
+    for w in [2u32, 4, 8] {
+        for _ in 0..cfg.tier.pick(4, 80) {
+            tasks.push(Task::WideUn(w, shard));
+        }
+    }
+    for _ in 0..cfg.tier.pick(16, 400) {
+        tasks.push(Task::Chains(shard / 2));
+    }
+    let mut rep = par_shards(cfg, "c02", tasks.len(), |idx, rng, rep| run_task(&tasks[idx], &u1, cfg, rng, rep));
+    rep.extra.insert("u1_size".into(), json!(u1.len()));
+    rep
+}
+
+// ---------------------------------------------------------------------------
+// Replay
+
+fn replay_input(j: &Value) -> Option<Input> {
+    let dom: IntervalDomain = serde_json::from_value(j.clone()).ok()?;
+    let o = observe(&dom).ok()?;
+    if wf_error(&o, None).is_some() {
+        return None; // not an input of the property's domain
+    }
+    Some(Input { dom, iv: o.iv, hinted: o.lo.is_some() || o.hi.is_some() || o.delay != 0 })
+}
+
+fn replay_members(inp: &Input, j: &Value) -> Vec<V> {
+    let mut m = inp.iv.all_members(1024).unwrap_or_else(|| inp.iv.std_members());
+    if let Some(arr) = j.as_array() {
+        for v in arr.iter().filter_map(vparse) {
+            if inp.iv.contains(v) && !m.contains(&v) {
+                m.push(v);
+            }
+        }
+    }
+    m
+}
+
+fn replay(_cfg: &Cfg, case: &Value) -> Report {
+    let mut rep = Report::new();
+    let Some(a) = replay_input(&case["a"]) else {
+        rep.note("replay: cannot rebuild input a");
+        return rep;
+    };
+    let wa = replay_members(&a, &case["wa"]);
+    match case["kind"].as_str().unwrap_or("") {
+        "bin" => {
+            if let (Ok(op), Some(b)) = (serde_json::from_value::<BinOpType>(case["op"].clone()), replay_input(&case["b"])) {
+                let wb = replay_members(&b, &case["wb"]);
+                check_bin_w(op, &a, &b, &wa, &wb, &mut rep, true);
+            }
+        }
+        "un" => {
+            if let Ok(op) = serde_json::from_value::<UnOpType>(case["op"].clone()) {
+                check_un(op, &a, &wa, &mut rep, true);
+            }
+        }
+        "cast" => {
+            if let (Ok(op), Some(size)) = (serde_json::from_value::<CastOpType>(case["op"].clone()), case["size"].as_u64()) {
+                check_cast(op, size as u32, &a, &wa, &mut rep, true);
+            }
+        }
+        "subpiece" => {
+            if let (Some(low), Some(size)) = (case["low"].as_u64(), case["size"].as_u64()) {
+                check_subpiece(low as u32, size as u32, &a, &wa, &mut rep, true);
+            }
+        }
+        _ => rep.note("unknown replay case kind"),
+    }
+    rep
 }
